@@ -89,8 +89,13 @@ class Rows(object):
 # abstract diagram
 # ---------------------------------------------------------------------------
 
-IN_COMPONENT = ('comp', 'nested', 'deep')     # containers whose content belongs to the component under test
-ALL_COMPONENT_CONTAINERS = ('comp', 'nested', 'deep', 'comp2')
+# containers whose content belongs to the component under test ('direct': owned by the component itself, without a
+# package in between - R8003; 'direct-nested': owned directly by the component nested in it)
+IN_COMPONENT = ('comp', 'nested', 'deep', 'direct', 'direct-nested')
+ALL_COMPONENT_CONTAINERS = IN_COMPONENT + ('comp2', 'direct2')
+IN_SECOND_COMPONENT = ('comp2', 'direct2')
+# containers whose classes take part in no relationship
+ISOLATED = ('comp2', 'nested', 'deep', 'direct', 'direct-nested', 'direct2')
 
 
 class Attr(object):
@@ -258,11 +263,17 @@ def build(d, rows=None):
         R.add('PE_PE', Element_ID=deep, Visibility=1, Package_ID=inner, type=7)
         R.add('EP_PKG', Package_ID=deep, Direct_Sys_ID=sys_id, Name='Deep')
         containers['deep'] = ('pkg', deep)
+        containers['direct'] = ('comp', comp)
+        containers['direct-nested'] = ('comp', nested)
+        containers['direct2'] = ('comp', comp2)
     B.containers = containers
 
     def pe(elem_id, where, ty):
         kind, cid = containers.get(where, containers['pkg'])
-        R.add('PE_PE', Element_ID=elem_id, Visibility=1, Package_ID=cid, type=ty)
+        if kind == 'comp':
+            R.add('PE_PE', Element_ID=elem_id, Visibility=1, Component_ID=cid, type=ty)
+        else:
+            R.add('PE_PE', Element_ID=elem_id, Visibility=1, Package_ID=cid, type=ty)
 
     # data types
     dt = dict((n, core_id(n)) for n in CORE)
@@ -648,7 +659,7 @@ def reference_xsd(d, component='comp'):
     ones and those inside that component. An attribute keeps its type name also when the type lives in another
     component (only the declaration of the type is a matter of scope).
     '''
-    inside = IN_COMPONENT if component == 'comp' else (component,)
+    inside = IN_COMPONENT if component == 'comp' else IN_SECOND_COMPONENT
     in_scope = lambda where: where in inside or where not in ALL_COMPONENT_CONTAINERS
     types = dict((n, ('restriction', b)) for n, b in XS_CORE.items())
     for name, values, where in d.enums:
